@@ -458,3 +458,8 @@ for _p in ('C01', 'C02', 'C03', 'C04', 'C10', 'C11', 'C12'):
 for _p in ('C05', 'C06', 'C08'):
     for _t in ('quick', 'thorough'):
         PROPS[_p][_t] = PROPS[_p][_t] + [sideb(['random_reject'])]
+
+PROPS['C05']['quick'] = PROPS['C05']['quick'] + [solve(1367, direct=1, missing=0, K=1)]
+PROPS['C06']['quick'] = PROPS['C06']['quick'] + [sideb(['packages'])]
+PROPS['C06']['thorough'] = PROPS['C06']['thorough'] + [sideb(['packages'])]
+PROPS['C20']['quick'] = PROPS['C20']['quick'] + [sideb(['packages', 'frontend'])]
